@@ -161,7 +161,7 @@ def text_of(htmltext):
     return "".join(p.out)
 
 
-HEAD_PLUGINS = ["strikethrough", "mark", "insert", "superscript", "subscript", "math", "ruby", "spoiler", "abbr"]
+HEAD_PLUGINS = ["strikethrough", "mark", "insert", "superscript", "subscript", "math", "ruby", "spoiler", "abbr", "footnotes"]
 HEAD_TEXTS = ["alpha", "beta *em* gamma", "`code` here", "a **strong** b", "x &amp; y", "[link](http://u.v) z", "tail <b>raw</b> t",
               "q < r", "plain words here", "![img](i.png) cap", "one\\*two", "e ~~s~~ f", "",
               "c <!-- x > y --> d", "<!-- a --> b <i>c</i>", "e <!-- --> f <!-- > -->", "x <a href=\"u\">l</a> y", "<span class=\"k\">s</span> t <!-- <b> -->", "[l](/u \"a>b\") m", "![a > b](/i.png) n",
@@ -170,7 +170,21 @@ HEAD_TEXTS = ["alpha", "beta *em* gamma", "`code` here", "a **strong** b", "x &a
               "Logo ![Bob's photo](p.png) cap", "[docs](/d \"User's guide\") m", "[d](/d 'say \"hi\"') n", "<span title=\"it's\">x</span> y", "<i data-x='a\"b'>k</i> l", "![say \"cheese\"](c.png) o",
               "![a'b\"c](x.png) p",
               # abbreviations (defined at the end of every document) after an escape or an unmatched delimiter in the same heading
-              "C\\# bindings for the HTML parser", "a [ b HTML c", "x * the W3C y", "HTML", "pre\\*HTML\\* post", "`c` HTML <b>W3C</b>", "[it's](/u) q 'r'", "<b class=x title=it's>u</b> v", "<a href=\"u\" title='w\"x' data-y=\"z'\">l</a> m"]
+              "C\\# bindings for the HTML parser", "a [ b HTML c", "x * the W3C y", "HTML", "pre\\*HTML\\* post", "`c` HTML <b>W3C</b>", "[it's](/u) q 'r'", "<b class=x title=it's>u</b> v", "<a href=\"u\" title='w\"x' data-y=\"z'\">l</a> m",
+              # a footnote reference in a heading (the marker word fnword identifies these entries): known finding, see known_findings.json
+              "fnword[^n1] here", "see fnword [^n1]"]
+
+
+FN_SIG = "toc:entry-shows-footnote-reference-source"
+
+
+def fn_only_diff(got, exp):
+    """the two entry lists differ only in entries whose text shows the source of a footnote reference (`fnword[^n1]`): the known finding"""
+    return got != exp and len(got) == len(exp) and all(g == e or (tuple(g[:-1]) == tuple(e[:-1]) and "fnword" in g[-1] and "[^" in g[-1]) for g, e in zip(got, exp))
+
+
+def fn_report(ctx, got, exp, rep):
+    ctx.fail(FN_SIG, "TOC entries %r show the source text of a footnote reference where the heading shows %r" % ([g for g, e in zip(got, exp) if g != e][:2], [e for g, e in zip(got, exp) if g != e][:2]), rep)
 
 
 def heading_doc(rng):
@@ -192,7 +206,7 @@ def heading_doc(rng):
         else:
             lines.append("para " + txt)
         lines.append("")
-    return "\n".join(lines) + "\n[bar]: /u\n[baz]: /v 'T'\n\n*[HTML]: Hyper Text\n*[W3C]: Consortium\n"
+    return "\n".join(lines) + "\n[bar]: /u\n[baz]: /v 'T'\n\n*[HTML]: Hyper Text\n*[W3C]: Consortium\n\n[^n1]: the note\n"
 
 
 def expected_items(doc, lo, hi, all_ids=False, escape=True):
@@ -233,6 +247,9 @@ def hook_part(ctx, n_docs):
         # newline, which the TOC entry shows as a trailing "\n" inside the <a> (insignificant in HTML, not "markup")
         got = [(x[0], x[1], x[2].strip()) for x in state.env.get("toc_items", [])]
         exp, nheads = expected_items(doc, lo, hi, escape=esc)
+        if fn_only_diff(got, exp):
+            fn_report(ctx, got, exp, {"kind": "hook", "doc": doc, "min": lo, "max": hi, "escape": esc})
+            got = exp
         if got != exp:
             ctx.fail("toc-hook:items", "toc_items %r differ from the top-level headings in range %r (escape=%s)" % (got, exp, esc), {"kind": "hook", "doc": doc, "min": lo, "max": hi, "escape": esc})
             continue
@@ -246,7 +263,7 @@ def hook_part(ctx, n_docs):
     return n
 
 
-FOOTER = "\n[bar]: /u\n[baz]: /v 'T'\n\n*[HTML]: Hyper Text\n*[W3C]: Consortium\n"
+FOOTER = "\n[bar]: /u\n[baz]: /v 'T'\n\n*[HTML]: Hyper Text\n*[W3C]: Consortium\n\n[^n1]: the note\n"
 
 
 def history_docs(rng):
@@ -300,7 +317,9 @@ def history_part(ctx, n_hist):
                 ctx.fail("toc-history:exception", "document %d of a history on one converter (%s) raised %r" % (j + 1, mode, e), rep)
                 break
             n += 1
-            if got != exp:
+            if fn_only_diff(got, exp):
+                fn_report(ctx, got, exp, rep)
+            elif got != exp:
                 ctx.fail("toc-history:items", "document %d rendered by a converter (%s) that rendered %d document(s) before: entries %r differ from its own headings %r" % (j + 1, mode, j, got, exp), rep)
                 break
     return n
@@ -351,7 +370,9 @@ def directive_part(ctx, n_docs):
         for (lo, hi), blk in zip(ranges, blocks):
             exp, nheads = expected_items(body, lo, hi, all_ids=True)
             entries = [(a, b.strip()) for a, b in re.findall(r'<a href="#([^"]*)">(.*?)</a>', blk[1], re.S)]
-            if entries != [(e[1], e[2]) for e in exp]:
+            if fn_only_diff(entries, [(e[1], e[2]) for e in exp]):
+                fn_report(ctx, entries, [(e[1], e[2]) for e in exp], {"kind": "directive", "doc": doc})
+            elif entries != [(e[1], e[2]) for e in exp]:
                 ctx.fail("toc-directive:entries", "TOC (levels %d..%d) entries %r differ from the headings in range %r" % (lo, hi, entries, exp), {"kind": "directive", "doc": doc})
             lv = [e[0] for e in exp]
             p = TocTree(); p.feed(blk[1]); p.close()
@@ -411,8 +432,26 @@ def include_part(ctx):
     return n
 
 
+def replay_known(ctx):
+    import mistune
+    from mistune.toc import add_toc_hook
+    for k in ctx.known:
+        ex = k.get("example") or {}
+        if "doc" not in ex:
+            continue
+        md = mistune.create_markdown(plugins=["footnotes"])
+        add_toc_hook(md)
+        html, state = md.parse(ex["doc"])
+        got = [(x[0], x[1], x[2].strip()) for x in state.env.get("toc_items", [])]
+        if any("[^" in g[2] for g in got):
+            ctx.fail(k["signature"], "stored example of a known finding: the TOC entry of %r is %r" % (ex["doc"], got), {"kind": "hook", "doc": ex["doc"], "min": 1, "max": 3, "escape": True})
+        else:
+            ctx.notes.append("a stored known-finding example no longer fails: %r" % ex["doc"])
+
+
 def run(ctx):
     ctx.broken += common.proof_stage(ctx, THEOREMS)
+    replay_known(ctx)
     seqs = level_seqs(ctx)
     toc_list_part(ctx, seqs)
     nh = hook_part(ctx, 400 if ctx.quick() else 4000)
